@@ -524,27 +524,29 @@ def _garbage_small():
             yield b''.join(combo)
 
 
-def _garbage():
-    yield from _garbage_small()
-    valid = [m.bencode() for m in _messages()][:14]
-    for raw in valid:
-        for cut in range(len(raw)):
-            yield raw[:cut]
-        for pos in range(0, len(raw), 1):
-            for repl in (b'e', b'd', b'l', b'i', b'9', b':', b'\x00'):
-                yield raw[:pos] + repl + raw[pos + 1:]
+def _garbage_crafted():
+    """the targeted shapes (each one found a defect or a seeded change once); they run FIRST so that the time budget of the quick tier
+    can never cut them off"""
     for n in (10, 500, 1000, 3000, 20000):
         yield b'l' * n
         yield b'd' * n
+        yield b'dl' * (n // 2)
         yield b'l' * n + b'e' * n
         yield b'd1:a' * n
+        yield b'd1:0i0e1:120:' + RPC + b'1:248:' + NODE + b'1:34:ping1:4l' + b'd' * n
     yield b'd1:0i2e1:120:' + RPC + b'1:248:' + NODE + b'1:3i5e1:40:e'       # error datagram with an integer exception type
+    # type-confused error datagrams: the two text fields as int / list / dict / nested
+    for f3 in (b'i5e', b'le', b'de', b'l1:ae', b'4:Oops'):
+        for f4 in (b'i7e', b'le', b'de', b'li1ee', b'd1:a1:be', b'0:', b'4:text'):
+            if (f3, f4) != (b'4:Oops', b'4:text') and (f3, f4) != (b'4:Oops', b'0:'):
+                yield b'd1:0i2e1:120:' + RPC + b'1:248:' + NODE + b'1:3' + f3 + b'1:4' + f4 + b'e'
     yield b'di0ei0ei1e20:' + RPC + b'i2e48:' + NODE + b'i3e4:pingi4elee'
     yield b'de'
     # hostile length prefixes (int() accepts signs, blanks, underscores): fixed defect F17, `d-3:e` never returned
     for raw in (b'd-3:e', b'l-1:e', b'l-2:e', b'd1:a-2:e', b'd-0:e', b'l+1:ae', b'l 1:ae', b'l1_0:aaaaaaaaaae', b'-5:', b'd-1:e', b'ld-9:ee',
                 b'd1:0i0e1:120:' + RPC + b'1:2-48:' + NODE + b'1:34:ping1:4lee'):
         yield raw
+    valid = [m.bencode() for m in _messages()][:14]
     for raw in valid[:6]:
         for m in re.finditer(rb'\d+:', raw):
             for repl in (b'-1:', b'-2:', b'-%d:' % (len(raw) + 5), b'+1:', b' 1:', b'99999:'):
@@ -553,6 +555,18 @@ def _garbage():
     yield b'd1:0i1e1:1l' + b'i1e' * 20 + b'e1:248:' + NODE + b'1:34:ponge'
     yield b'd1:0i0e1:1l' + b'i1e' * 20 + b'e1:248:' + NODE + b'1:34:ping1:4lee'
     yield b'd1:0i1e1:120:' + RPC + b'1:2l' + b'i1e' * 48 + b'e1:34:ponge'
+
+
+def _garbage():
+    yield from _garbage_crafted()
+    valid = [m.bencode() for m in _messages()][:14]
+    for raw in valid:
+        for cut in range(len(raw)):
+            yield raw[:cut]
+        for pos in range(0, len(raw), 1):
+            for repl in (b'e', b'd', b'l', b'i', b'9', b':', b'\x00'):
+                yield raw[:pos] + repl + raw[pos + 1:]
+    yield from _garbage_small()
 
 
 class _Transport:
